@@ -48,6 +48,9 @@ func (m *LuaManager) RunLuaScript(obj *unstructured.Unstructured, script string)
 			return nil, err
 		}
 	}
+	// scripts get no file access: drop the base library's file loaders
+	l.SetGlobal("dofile", lua.LNil)
+	l.SetGlobal("loadfile", lua.LNil)
 	ctx, cancel := context.WithTimeout(context.Background(), 1*time.Second)
 	defer cancel()
 	l.SetContext(ctx)
